@@ -857,6 +857,21 @@ def _d8(run: Run, w: World) -> None:
         # the registration is the add of the loop's own name variable
         adds = [(lp, x) for lp, x in adds if x.value.args and dotted(x.value.args[0]) == dotted(lp.target)]
         run.ob("D8", f"{modname}:registration")
+        if len(adds) == 0:
+            # the same table written as a comprehension: {name for name in dir(container) if isinstance(getattr(container, name), cls)}
+            comps = [x for st_ in m.tree.body if not isinstance(st_, (ast.FunctionDef, ast.ClassDef)) for x in ast.walk(st_) if isinstance(x, (ast.SetComp, ast.ListComp))
+                     and isinstance(x.elt, ast.Name) and len(x.generators) == 1 and dotted(x.generators[0].target) == x.elt.id]
+            if len(comps) == 1:
+                g = comps[0].generators[0]
+                tests = list(g.ifs)
+                ok = len(tests) == 1 and isinstance(tests[0], ast.Call) and dotted(tests[0].func) == "isinstance" and len(tests[0].args) == 2 and dotted(tests[0].args[1]) == cls \
+                    and isinstance(tests[0].args[0], ast.Call) and dotted(tests[0].args[0].func) == "getattr" and len(tests[0].args[0].args) == 2 \
+                    and dotted(tests[0].args[0].args[1]) == comps[0].elt.id
+                if not ok:
+                    run.violate("D8", f"{modname}:registration", m, comps[0],
+                                f"{modname.rsplit('.', 1)[1]} registers a name under {[norm(t_, 50) for t_ in tests]} instead of exactly "
+                                f"`isinstance(getattr(container, name), {cls})`: a documented {cls} left out of the table makes its role unresolvable")
+                continue
         if len(adds) != 1:
             raise AnalysisError(f"C19: registration loop of {modname} not understood ({len(adds)} add sites)")
         loop, st = adds[0]
@@ -893,13 +908,33 @@ def _d8(run: Run, w: World) -> None:
     if ps is None:
         raise AnalysisError("C19: symbols_role.process_string not found")
     run.ob("D8", "symbols_role:unknown-name-refused")
-    raises = [x for x in ast.walk(ps) if isinstance(x, ast.Raise)]
+    # process_string together with the module's own helpers it calls (transitively): where the search lives is the author's business
+    helpers = {f_.name: f_ for f_ in rm.tree.body if isinstance(f_, ast.FunctionDef)}
+    scope, todo = [ps], [ps]
+    while todo:
+        cur = todo.pop()
+        for c_ in ast.walk(cur):
+            if isinstance(c_, ast.Call) and isinstance(c_.func, ast.Name) and c_.func.id in helpers and helpers[c_.func.id] not in scope:
+                scope.append(helpers[c_.func.id])
+                todo.append(helpers[c_.func.id])
+    ps_nodes = [x for f_ in scope for x in ast.walk(f_)]
+    raises = [x for x in ps_nodes if isinstance(x, ast.Raise)]
     live = False
-    for lp in [x for x in ast.walk(ps) if isinstance(x, ast.For)]:
+    # owner = next((module for module, names in table.items() if ...), None); if owner is None: raise
+    for f_ in scope:
+        for a_ in [x for x in ast.walk(f_) if isinstance(x, ast.Assign) and len(x.targets) == 1 and isinstance(x.targets[0], ast.Name) and isinstance(x.value, ast.Call)
+                   and dotted(x.value.func) == "next" and len(x.value.args) == 2 and isinstance(x.value.args[0], ast.GeneratorExp)]:
+            default = x_ = a_.value.args[1]
+            for t_ in [x for x in ast.walk(f_) if isinstance(x, ast.If) and any(isinstance(y, ast.Raise) for st_ in x.body for y in ast.walk(st_)) and x.lineno > a_.lineno]:
+                c_ = t_.test
+                if isinstance(c_, ast.Compare) and len(c_.ops) == 1 and isinstance(c_.ops[0], (ast.Is, ast.Eq)) and dotted(c_.left) == a_.targets[0].id \
+                        and ast.dump(c_.comparators[0]) == ast.dump(default):
+                    live = True  # the default of next() is what the refusal tests
+    for lp in [x for x in ps_nodes if isinstance(x, ast.For)]:
         if any(isinstance(y, ast.Raise) for st_ in lp.orelse for y in ast.walk(st_)):
             live = True  # for ... else: raise
         targets = {y.id for y in ast.walk(lp.target) if isinstance(y, ast.Name)}
-        for t_ in [x for x in ast.walk(ps) if isinstance(x, ast.If) and any(isinstance(y, ast.Raise) for y in ast.walk(x)) and getattr(x, "lineno", 0) > lp.lineno]:
+        for t_ in [x for x in ps_nodes if isinstance(x, ast.If) and any(isinstance(y, ast.Raise) for y in ast.walk(x)) and getattr(x, "lineno", 0) > lp.lineno]:
             tested = {y.id for y in ast.walk(t_.test) if isinstance(y, ast.Name)}
             if tested and not (tested & targets) and any(isinstance(a_, ast.Assign) and any(isinstance(tt, ast.Name) and tt.id in tested for tt in a_.targets) for st_ in lp.body for a_ in ast.walk(st_)):
                 live = True  # a found-flag set inside the loop and tested afterwards
@@ -909,7 +944,8 @@ def _d8(run: Run, w: World) -> None:
                     "scanned - a mistyped or removed symbol name is silently linked to a page that does not define it")
     run.ob("D8", "symbols_role:exported-object")
     ident = any(isinstance(c_, ast.Compare) and any(isinstance(o_, ast.Is) for o_ in c_.ops) and "getattr" in {dotted(y.func) for y in ast.walk(c_) if isinstance(y, ast.Call)}
-                for c_ in ast.walk(ps)) or any(isinstance(c_, ast.Compare) and any(isinstance(o_, ast.Is) for o_ in c_.ops) for c_ in ast.walk(ps))
+                for c_ in ps_nodes) or any(isinstance(c_, ast.Compare) and any(isinstance(o_, ast.Is) for o_ in c_.ops) and not any(isinstance(k_, ast.Constant) and k_.value is None for k_ in c_.comparators)
+                                           for c_ in ps_nodes)
     if not ident:
         # without an identity test the first module (in sorted order) that has the name wins; that is only right when no name is defined twice
         dup = {}
